@@ -277,7 +277,7 @@ struct PGMIndex<K, Epsilon, EpsilonRecursive, Floating>::Segment {
     inline size_t operator()(const K &k) const {
         constexpr size_t max_pos = std::numeric_limits<decltype(intercept)>::max();
         size_t pos;
-        if constexpr (std::is_same_v<K, int64_t> || std::is_same_v<K, int32_t>)
+        if constexpr (std::is_integral_v<K> && std::is_signed_v<K> && sizeof(K) >= sizeof(int))
             pos = internal::saturating_cast(slope * double(std::make_unsigned_t<K>(k) - key), max_pos);
         else
             pos = internal::saturating_cast(slope * double(k - key), max_pos);
